@@ -27,6 +27,45 @@ BODIES = [
 ]
 
 
+def classify_payload(payload):
+    """What CPython's marshal says about a payload, asked in a throw-away child with a 2 s / 1 GiB leash (a damaged length
+    field can make marshal allocate or spin): '' = loads, exception type name = refuses, None = neither within the leash."""
+    import resource
+    import signal
+
+    r, w = os.pipe()
+    pid = os.fork()
+    if pid == 0:
+        try:
+            os.close(r)
+            resource.setrlimit(resource.RLIMIT_AS, (1 << 30, 1 << 30))
+            signal.signal(signal.SIGALRM, signal.SIG_DFL)
+            signal.alarm(2)
+            try:
+                marshal.loads(payload)
+                os.write(w, b"+")
+            except MemoryError:
+                pass
+            except BaseException as e:  # noqa
+                os.write(w, b"-" + type(e).__name__.encode())
+        finally:
+            os._exit(0)
+    os.close(w)
+    out = b""
+    while True:
+        chunk = os.read(r, 256)
+        if not chunk:
+            break
+        out += chunk
+    os.close(r)
+    os.waitpid(pid, 0)
+    if out.startswith(b"+"):
+        return ""
+    if out.startswith(b"-"):
+        return out[1:].decode()
+    return None
+
+
 class C19:
     id = "C19"
     module = "checks.c19"
@@ -115,11 +154,12 @@ class C19:
                     from xonsh.imphooks import XonshImportHook
 
                     hook = XonshImportHook(ex)
-                    if hook.find_spec("s", [os.path.dirname(target)]) is None:
+                    modname = os.path.basename(target)[:-4]
+                    if hook.find_spec(modname, [os.path.dirname(target)]) is None:
                         raise ImportError("not found")
                     info = None
                     try:
-                        exec(hook.get_code("s"), glb)
+                        exec(hook.get_code(modname), glb)
                     except Exception as e:  # noqa  (what `import s` would raise)
                         info = (type(e), e, None)
                 else:
@@ -174,10 +214,14 @@ class C19:
         sw = case["sw"]
         # two projects with a script of the same name: run by absolute path or by the relative name from its own directory
         scripts, ns_, bodies = [], [], []
-        for proj in ("alpha", "beta"):
+        # ... or two scripts whose paths differ only in characters the cache-file naming has to escape (X vs _x, _ vs __)
+        layout = random.Random(case["rseed"] + "/layout").choice([(("alpha", "s.xsh"), ("beta", "s.xsh"))] * 3 + [(("proj", "Run.xsh"), ("proj", "_run.xsh")), (("Proj", "s.xsh"), ("_proj", "s.xsh")), (("proj", "aB.xsh"), ("proj", "a_b.xsh"))])
+        if layout[0][0] != "alpha":
+            rec.count("histories_with_look_alike_script_paths")
+        for proj, base in layout:
             d = os.path.join(self.root, proj)
             os.makedirs(d, exist_ok=True)
-            scripts.append(os.path.join(d, "s.xsh"))
+            scripts.append(os.path.join(d, base))
             ns_.append(rng.randint(10, 99))
             bodies.append(rng.choice(BODIES))
             self.write(scripts[-1], bodies[-1].format(n=ns_[-1]), rng)
@@ -211,7 +255,7 @@ class C19:
                 what, target, mode = "script", script, "exec"
                 if rng.random() < 0.5:
                     os.chdir(os.path.dirname(script))
-                    target = "s.xsh" if rng.random() < 0.7 else "./s.xsh"
+                    target = os.path.basename(script) if rng.random() < 0.7 else "./" + os.path.basename(script)
                     rec.count("script_runs_by_relative_path")
                 kinds.append("R")
             else:
@@ -259,6 +303,25 @@ class C19:
             variants += [("zero-tail", good[:k] + b"\0" * (len(good) - k)) for k in sorted({0, 1, header_end - 1, header_end, header_end + 1, len(good) // 2, len(good) - 1} | {rng.randrange(len(good)) for _ in range(20)})]
             variants += [("foreign-xonsh-version", b"0.0.1\n" + good[good.index(b"\n") + 1:]), ("foreign-python-version", good[: good.index(b"\n") + 1] + b"(2, 7, 18)\n" + good[header_end:]), ("swapped-header-lines", b"\n".join(good[:header_end].split(b"\n")[:2][::-1]) + b"\n" + good[header_end:]),
                          ("empty", b""), ("long-header-line", b"x" * 5000 + b"\n" + good), ("text-payload", good[:header_end] + b"this is not marshal data\n"), ("only-newlines", b"\n\n\n"), ("garbage", bytes(rng.randrange(256) for _ in range(200)))]
+            # single damaged bytes inside the payload: kept only when CPython's own marshal refuses the result (whatever it
+            # raises) - an entry that still loads as some code object is outside the property and is not run
+            r3 = random.Random(case["rseed"] + "/bytes/" + kind)
+            refused = {}
+            for _ in range(200):
+                pos = r3.randrange(header_end, len(good))
+                b = r3.choice([good[pos] | 0x80, good[pos] ^ 0xFF, 0xFF, r3.randrange(256)])
+                if b == good[pos]:
+                    continue
+                data = good[:pos] + bytes([b]) + good[pos + 1:]
+                verdict = classify_payload(data[header_end:])
+                if verdict is None:
+                    rec.count("damaged_bytes_marshal_neither_loads_nor_refuses_quickly_not_run")
+                elif verdict == "":
+                    rec.count("damaged_bytes_that_still_load_not_run")
+                else:
+                    refused.setdefault(verdict, []).append(("damaged-byte-marshal-raises-" + verdict, data))
+            for lst in refused.values():
+                variants += lst[:6]
             tamper = [("non-code-marshal-int", good[:header_end] + marshal.dumps(7)), ("non-code-marshal-str", good[:header_end] + marshal.dumps("print('pwned')")), ("non-code-marshal-none", good[:header_end] + marshal.dumps(None))]
             for name, data in variants + tamper:
                 if os.path.isdir(entry):
